@@ -1469,6 +1469,49 @@ pub fn c02(tier: Tier) -> ! {
         }
     }
     run.set("raster_cross_checks", raster_checks);
+    // a state whose (public) shape is replaced after it was built scores with the shape it holds
+    let mut replaced = 0u64;
+    {
+        use packing::wallpaper::get_wallpaper_group;
+        use packing::PackedState;
+        for g in ["p1", "p2", "p2gg"].iter() {
+            let wg = get_wallpaper_group(wallpaper_enum(g)).unwrap();
+            let n = ita_ops(g).len() as f64;
+            for &(a, b) in [(0.637556, 0.3), (0.3, 0.9), (1.2, 0.5)].iter() {
+                if let Ok(mut st) = PackedState::from_group(MolecularShape2::from_trimer(a, 120., 1.), &wg) {
+                    let other = MolecularShape2::from_trimer(b, 90., 0.8);
+                    let want_area = body_from_json(&serde_json::to_value(&other).unwrap()).area();
+                    st.shape = other;
+                    replaced += 1;
+                    let doc = serde_json::to_value(&st).unwrap_or(Value::Null);
+                    let cell_area = params_of_json(&doc).lattice().area();
+                    if let Some(sc) = st.score() {
+                        let want = n * want_area / cell_area;
+                        if !((sc - want).abs() <= 1e-8 * want) {
+                            run.fail(None, &format!("{}: a trimer state whose shape was replaced by trimer({}, 90, 0.8) scores {} but copies x area / cell area = {}", g, b, sc, want), json!({"engine": "document", "group": g, "state": doc}));
+                        }
+                    }
+                }
+            }
+            for &(na, nb) in [(4usize, 7usize), (6, 3)].iter() {
+                if let Ok(mut st) = PackedState::from_group(LineShape::polygon(na).unwrap(), &wg) {
+                    let other = LineShape::polygon(nb).unwrap();
+                    let want_area = body_from_json(&serde_json::to_value(&other).unwrap()).area();
+                    st.shape = other;
+                    replaced += 1;
+                    let doc = serde_json::to_value(&st).unwrap_or(Value::Null);
+                    let cell_area = params_of_json(&doc).lattice().area();
+                    if let Some(sc) = st.score() {
+                        let want = n * want_area / cell_area;
+                        if !((sc - want).abs() <= 1e-8 * want) {
+                            run.fail(None, &format!("{}: a {}-gon state whose shape was replaced by a {}-gon scores {} but copies x area / cell area = {}", g, na, nb, sc, want), json!({"engine": "document", "group": g, "state": doc}));
+                        }
+                    }
+                }
+            }
+        }
+    }
+    run.set("states_whose_shape_was_replaced_in_place", replaced);
     // depth-2 histories: every ordered pair of shapes, the second one's dilute p1 and p2 states
     // scored on a thread that has just scored the first one's; also judged by the oracle area
     let mut hist_docs: Vec<Value> = vec![];
